@@ -95,6 +95,9 @@ func (c *C12) Run(x *engine.Ctx) *engine.Violation {
 	if t.Chance(1, 6) {
 		return c.depthGuard(x)
 	}
+	if t.Chance(1, 5) {
+		return c.historyPair(x, mode)
+	}
 	depth := 1 + t.Draw(8)
 	if t.Chance(1, 5) {
 		depth = 9 + t.Draw(23)
@@ -280,6 +283,72 @@ func (c *C12) Run(x *engine.Ctx) *engine.Violation {
 
 // publicIsHash: the public part of the witness is exactly the input hash; no other assigned
 // field changes it.
+// historyPair: "every run" includes a build that comes second in a process. Dimensions A and then B are
+// compiled in this process, B chosen so that a lossy summary of (depth, batch) - their decimal
+// concatenation, sum, product, or the pair in the other order - coincides with A's (the ways a
+// memoised or lazily initialised table keyed too coarsely would confuse them); both must equal what a
+// fresh `gnark-mbu r1cs` process writes for the same dimensions.
+func (c *C12) historyPair(x *engine.Ctx, mode string) *engine.Violation {
+	t := x.T
+	d, a, b := 1+t.Draw(3), 1+t.Draw(2), 1+t.Draw(9)
+	var A, B [2]int
+	kind := ""
+	switch t.Draw(4) {
+	case 0:
+		kind, A, B = "same-decimal-concatenation", [2]int{d, 10*a + b}, [2]int{10*d + a, b}
+	case 1:
+		kind, A, B = "swapped", [2]int{d + 1, d + 1 + b}, [2]int{d + 1 + b, d + 1}
+	case 2:
+		kind, A, B = "same-sum", [2]int{d + 1, b + 1}, [2]int{d + 2, b}
+	default:
+		kind, A, B = "same-product", [2]int{d, 2 * b}, [2]int{2 * d, b}
+	}
+	if t.Chance(1, 2) {
+		A, B = B, A
+	}
+	for _, p := range []*[2]int{&A, &B} {
+		if mode == rollup.Deletion && p[0] > 31 {
+			p[0] = 31
+		}
+	}
+	x.S.Count("probe:history_pair/" + kind)
+	dir, err := ops.Scratch(fmt.Sprintf("c12h-%d-%d", os.Getpid(), x.Run))
+	if err != nil {
+		panic(err)
+	}
+	defer os.RemoveAll(dir)
+	for i, p := range [][2]int{A, B} {
+		key := fmt.Sprintf("%s/d%d/b%d", mode, p[0], p[1])
+		cs, err := buildCS(mode, p[0], p[1])
+		if err != nil {
+			return engine.Violatef("C12/r1cs-path-fails", "%s: %v", key, err)
+		}
+		in := csHash(cs)
+		out := filepath.Join(dir, fmt.Sprintf("h%d.r1cs", i))
+		gmp := []int{1, 2, 4, 16}[t.Pick(4)]
+		r := ops.Run(ops.Cmd{Args: []string{"r1cs", "--mode", mode, "--tree-depth", strconv.Itoa(p[0]), "--batch-size", strconv.Itoa(p[1]), "--output", out}, GoMaxProcs: gmp})
+		if r.Exit != 0 {
+			return engine.Violatef("C12/cli-r1cs-fails", "%s GOMAXPROCS=%d: %s", key, gmp, ops.Describe(r))
+		}
+		fresh, err := ops.FileSHA256(out)
+		if err != nil {
+			return engine.Violatef("C12/cli-r1cs-fails", "%s: no output file: %v", key, err)
+		}
+		os.Remove(out)
+		x.S.Eval(2)
+		x.S.Seen(fmt.Sprintf("%s/history-%s#%d", key, kind, i))
+		x.Log.Addf("C", "constraint-system", "%s history=%s#%d in-process=%s fresh=%s", key, kind, i, in[:16], fresh[:16])
+		if in != fresh {
+			what := "first build of the pair"
+			if i == 1 {
+				what = fmt.Sprintf("built in this process right after %s/d%d/b%d (%s)", mode, A[0], A[1], kind)
+			}
+			return differ(key, "the system compiled in the harness process ("+what+") differs from the one a fresh `gnark-mbu r1cs` process writes", map[string]string{"C/library-r1cs-in-process": in, "C/process-r1cs-fresh": fresh})
+		}
+	}
+	return nil
+}
+
 func (c *C12) publicIsHash(mode string, depth, batch int) *engine.Violation {
 	mk := func(hash, other int64) fr.Vector {
 		var a frontend.Circuit
